@@ -343,7 +343,9 @@ struct PrtStream : Family {
 		p.setenv("wbackend", r.chance(1, 2) ? "dyn" : r.chance(1, 2) ? "file" : "sim");
 		Line w = mkline("world", "prt");
 		uint64_t npal = r.below(5);
-		w.set("seed", hex64(r.next())).set("npal", npal).set("nimg", npal ? r.below(13) : 0).set("nanim", r.below(thorough ? 10 : 7)).set("canonical", r.chance(3, 4) ? 1 : 0);
+		bool many = r.chance(1, 25);
+		if (many) npal = r.range(1, 16);
+		w.set("seed", hex64(r.next())).set("npal", npal).set("nimg", npal ? (many ? r.range(17, 60) : r.below(13)) : 0).set("nanim", many ? r.range(17, 30) : r.below(thorough ? 10 : 7)).set("canonical", r.chance(3, 4) ? 1 : 0);
 		p.world.push_back(w);
 		static const char* BAD[] = {"palidx", "scanline", "layers", "layers2"};
 		size_t n = static_cast<size_t>(r.below(4));
